@@ -1,4 +1,5 @@
 """C16 — the async-lock flavour obeys the same observable semantics as the sync flavour."""
+import os
 import re
 from ..facts import strip, ecall_matches, contains, find_all, fmt, mentions_field, mentions_call, is_param_named
 from .. import conds
@@ -27,6 +28,8 @@ META = {
 }
 META["explanation"] += ' R16.4 every Ready(Some(..)) the async poll paths build is dominated by the call of the poll leaf (so its closed test and version bookkeeping run first). R16.5 an effect (state method, sibling method, wait for an update) that the sync twin performs on every completing path is performed on every completing path of the async method as well (cut check on the coroutine body; a closure that performs the effect counts where it is constructed).'
 META["explanation"] += ' Shared with C19: R19.10 (re-arm before foreign code).'
+META["explanation"] += " R16.4 end-of-stream-derives-from-leaf: a None leaving an async poll path is the leaf's answer, not the residual of a failed try_lock (`?` on an Option). R16.5 wait-once: after the leaf answered Ready the async path does not return to waiting (the update is already marked observed)."
+META["explanation"] += " R16.6 cancel safety: in every coroutine, after the observed version is marked (field assignment, or the Ready edge of a poll whose body reaches the poll leaf with the subscriber's own observed_version) no suspension point (MIR yield) is reachable - a dropped future loses no update (F13, repaired by e2e0410). R16.7 a lock-request future stored in the subscriber is not polled from inside an async method's future unless a drop guard re-arms it (tokio grants a queued request its permit without a poll): re-derives the known finding F14 for next / next_ref. R16.2 accepts a private helper that is handed the version when every caller passes the field or a copy of it."
 
 POLLISH = ("poll_next_ref", "poll_update", "poll_next_nopin")
 
@@ -53,6 +56,50 @@ def arg_class(body, op):
     return "other"
 
 
+def _capture_class(F, lb, name):
+    """class of what the closure `lb` captured under `name`, judged in the body that builds the closure."""
+    par = F.fns.get(lb.crate + "::" + (lb.raw.get("parent") or "")) if lb.kind == "closure" else None
+    if par is None or not par.built:
+        return None
+    names = [c_["name"] for c_ in (lb.raw.get("built") or {}).get("captures", [])]
+    for loc, s_ in par.built.iter_stmts():
+        if s_["k"] == "assign" and s_["rv"]["k"] == "agg" and s_["rv"].get("of") == "closure" and s_["rv"].get("def") == lb.path:
+            for nm, op_ in zip(names, s_["rv"]["ops"]):
+                if nm == name:
+                    return arg_class(par.built, op_)
+    return None
+
+
+def _cap_class(F, lb, cls):
+    """`param:NAME` read off a closure's capture: a parameter of the enclosing fn keeps its class, a captured local variable is
+    classified in the body that captured it."""
+    if cls.startswith("param:") and lb.kind == "closure":
+        root = root_fn(F, lb)
+        pnames = [root.built.locals[k].get("name") for k in range(1, root.built.arg_count + 1)] if root.built else []
+        if cls[len("param:"):] not in pnames:
+            return _capture_class(F, lb, cls[len("param:"):]) or cls
+    return cls
+
+
+def _subst_params(F, lb, events, c, b, t):
+    """events of an expanded private helper, with its own parameters replaced by what this call site passes for them."""
+    if not c.built:
+        return events
+    m = {}
+    for i in range(1, min(c.built.arg_count, len(t["args"])) + 1):
+        nm = c.built.locals[i].get("name")
+        if nm and nm not in ("self", "cx"):
+            cls = arg_class(b, t["args"][i - 1])
+            if cls.startswith("param:") and lb.kind == "closure":
+                # a capture: a parameter of the enclosing fn keeps its class, a captured local is classified where it was captured
+                root = root_fn(F, lb)
+                pnames = [root.built.locals[k].get("name") for k in range(1, root.built.arg_count + 1)] if root.built else []
+                if cls[len("param:"):] not in pnames:
+                    cls = _capture_class(F, lb, cls[len("param:"):]) or cls
+            m["param:%s" % nm] = cls
+    return [tuple(m.get(x, x) if isinstance(x, str) else x for x in e) for e in events]
+
+
 def skeleton(F, fn, _depth=0):
     sfns = state_fns(F)
     ev = []
@@ -71,9 +118,9 @@ def skeleton(F, fn, _depth=0):
                 if c is not None and c not in sfns and same_ty and c is not fn and c.kind == "assoc" and not c.raw.get("impl_trait") \
                         and c.vis not in ("pub", "crate") and _depth < 3 and c.name not in ("from_inner", "new", "new_async"):
                     # a private helper of the same type (possibly async: a coroutine of its own): its events are the caller's
-                    ev.extend(skeleton(F, c, _depth + 1))
+                    ev.extend(_subst_params(F, lb, skeleton(F, c, _depth + 1), c, b, t))
                 elif c in sfns:
-                    ev.append(("state." + c.name,) + tuple(arg_class(b, a) for a in t["args"][1:]))
+                    ev.append(("state." + c.name,) + tuple(_cap_class(F, lb, arg_class(b, a)) for a in t["args"][1:]))
                 elif c is not None and (c.raw.get("self_ty") or "").startswith("subscriber::Subscriber<") and not c.raw.get("impl_trait"):
                     nm = c.name.replace("_async", "")
                     if nm in POLLISH:
@@ -85,7 +132,7 @@ def skeleton(F, fn, _depth=0):
                 elif c is not None and not c.raw.get("impl_trait") and c is not fn and (c.raw.get("self_ty") or "").split("<")[0] == (fn.raw.get("self_ty") or "").split("<")[0] and c.kind == "assoc" \
                         and c.vis not in ("pub", "crate") and _depth < 3 and c.name not in ("from_inner",):
                     # a private helper of the same type (possibly async: a coroutine of its own): its events are the caller's
-                    ev.extend(skeleton(F, c, _depth + 1))
+                    ev.extend(_subst_params(F, lb, skeleton(F, c, _depth + 1), c, b, t))
                 elif c is not None and not c.raw.get("impl_trait") and c is not fn and (c.raw.get("self_ty") or "").split("<")[0] == (fn.raw.get("self_ty") or "").split("<")[0] and c.kind == "assoc" \
                         and c.name not in ("from_inner",):
                     # a same-type wrapper that is itself a pure pass-through to one state method (`Self::set` -> state.set) is
@@ -129,6 +176,34 @@ def r16_4(ctx, f, leaves, rule="R16.4"):
                          "`%s` returns Ready(Some(..)) on a path that never asks ObservableState::poll_update: the closed test (version 0) is skipped, so the stream yields an item where the default flavour ends" % f.path)
         else:
             ctx.undecided(rule, f, "ready-derives-from-leaf", b.line_at(loc), "a Ready result without the leaf")
+    # every None that can end up inside a returned Ready(..) is the leaf's own None
+    for loc, kind, payload in blocks_assigning_ret(b):
+        if kind != "assign":
+            continue
+        e0 = b.expr_of_rv(payload, 12, (), loc)
+        readys = find_all(e0, lambda y: y[0] == "agg" and y[1] == "adt" and y[2] == "std::task::Poll" and y[3] == "Ready" and y[5])
+        for inner in [r_[5][0] for r_ in readys]:
+          for nn in find_all(inner, lambda y: y[0] == "agg" and y[1] == "adt" and y[2] == "std::option::Option" and y[3] == "None" and y[6] is not None):
+            facts = conds.bare(conds.dominating_facts(b, nn[6][0]))
+            ok_none = any(x[0] == "variant" and x[2] == frozenset(["None"]) and contains(x[1], lambda y: y[0] == "call" and y[4] is not None and y[4][0] in leaf_blocks) for x in facts)
+            if ok_none:
+                ctx.holds(rule, f, "end-of-stream-derives-from-leaf", b.line_at(nn[6]), "a None inside the returned Ready(..) is built under the leaf's None")
+          for rc in find_all(inner, lambda y: y[0] == "call" and ecall_matches(y, r"FromResidual(<.*>)?>?::from_residual$")):
+            src = find_all(rc, lambda y: y[0] == "call" and ecall_matches(y, r"ops::Try>?::branch$"))
+            from_leaf = any(contains(c_, lambda y: y[0] == "call" and y[4] is not None and y[4][0] in leaf_blocks) for c_ in src) if src else False
+            ctx.verdict(from_leaf, rule, f, "end-of-stream-derives-from-leaf", b.line_at(rc[4]) if rc[4] else f.loc(), "`?` on the leaf's own Option",
+                        "`%s` can put a None that is not the poll leaf's answer into the Ready(..) it returns (a `?` on something else - e.g. a try_lock that lost against a writer): the stream then reports its END although the observable is alive and writing" % f.path)
+    # `x?` on an Option inside a function returning Poll<Option<_>> answers Ready(None) - the end of the stream - when x is None:
+    # x must be the leaf's own answer, not e.g. a failed try_lock
+    for blk, t in b.calls(r"FromResidual(<.*>)?>?::from_residual$"):
+        g = t.get("gargs") or []
+        if len(g) < 2 or not g[0].startswith("std::task::Poll<std::option::Option<") or "std::option::Option<std::convert::Infallible>" not in g[1]:
+            continue
+        e = b.expr_of_op(t["args"][0])
+        src = find_all(e, lambda y: y[0] == "call" and ecall_matches(y, r"ops::Try>?::branch$"))
+        from_leaf = any(contains(c_, lambda y: y[0] == "call" and y[4] is not None and y[4][0] in leaf_blocks) for c_ in src) if src else False
+        ctx.verdict(from_leaf, rule, f, "end-of-stream-derives-from-leaf", b.line_at((blk, 10 ** 6)), "`?` on the leaf's own Option",
+                    "`%s` applies `?` to an Option that is not the poll leaf's answer inside a function returning Poll<Option<_>>: when it is None (e.g. a try_lock that lost against a writer) the stream reports its END although the observable is alive" % f.path)
 
 
 def ready_from_leaf(ctx, rule):
@@ -139,7 +214,8 @@ def ready_from_leaf(ctx, rule):
     for f, sites in wakers.poll_fns(F, (EY,)):
         if any(f is l for l in leaves) or not f.built:
             continue
-        if not any(F.local_callee(f, t) in leaves for blk, t in f.built.calls()):
+        ib = inl(F, f, *leaves, desugar=True, tag="r16.4") or f.built
+        if not any(F.local_callee(f, t) in leaves for blk, t in ib.calls()):
             continue
         n += 1
         r16_4(ctx, f, leaves, rule)
@@ -218,7 +294,276 @@ def r16_5(ctx, af, sf):
         else:
             ctx.violated("R16.5", af, "unconditional:%s:%s" % (af.name, nm), af.loc(),
                          "the sync `%s` performs `%s` on every path to its return, the async `%s` has a path that returns without it: for the histories that take that path the results differ from the default flavour" % (sf.path, nm, af.path))
+    # the wait for an update happens at most once per call: a `<poll>` event inside a cycle of the async method means that after an
+    # update was found (and marked observed by the leaf) the method can go back to waiting - that update is then never handed out
+    for lb, b, ev in event_blocks(F, af):
+        for blk in sorted(ev.get("self.<poll>", ())):
+            k += 1
+            t = b.term(blk)
+            succ = b.normal_succ(blk)
+            in_cycle = any(blk in b.reachable_from(x) for x in succ)
+            if t["k"] == "call" and F.local_callee(lb, t) is not None and in_cycle:
+                # a direct poll call inside the await loop of its own future is the await itself; only a re-created wait counts
+                in_cycle = False
+            ctx.verdict(not in_cycle, "R16.5", af, "wait-once:%s" % af.name, b.line_at((blk, 10 ** 6)), "the wait for an update is set up once per call",
+                        "`%s` sets up its wait for an update inside a loop: after an update was found - and marked as observed by the poll leaf - it can go back to waiting (e.g. because a lock probe failed); if nothing else changes, that update is never delivered although the default flavour delivers it" % af.path)
     return k
+
+
+
+# ---------------------------------------------------------------------------
+# R16.6 cancel safety: the update is marked as observed in the resumption that hands it out
+
+def _param_rooted(b, e):
+    out = set()
+    for n in find_all(e, lambda y: y[0] == "param"):
+        if n[1] >= 2:
+            out.add(n[1])
+    return out
+
+
+def mark_summary(F, g, leaves, _memo=None, _depth=0):
+    """(marks the observed version of the subscriber it works on, set of parameter positions through which it marks)."""
+    _memo = {} if _memo is None else _memo
+    if g.path in _memo:
+        return _memo[g.path]
+    _memo[g.path] = (False, frozenset())
+    if not g.built or _depth > 6:
+        return _memo[g.path]
+    b = g.built
+    own, via = False, set()
+    for loc, s_ in b.iter_stmts():
+        if s_["k"] == "assign" and s_["place"]["proj"] and last_field(s_["place"]) == "observed_version":
+            if obs_rooted(g, b.expr_of_place(s_["place"])) or g.kind not in ("closure", "coroutine"):
+                own = True
+    for blk, t in b.calls():
+        if wakers.is_poll_call(t) and not any(F.local_callee(g, t) is l_ for l_ in leaves):
+            # polling a local future / a closure handed to poll_fn runs its body
+            for pb in _polled_bodies(F, g, t):
+                if pb is not g and mark_summary(F, pb, leaves, _memo, _depth + 1)[0]:
+                    own = True
+            continue
+        c = F.local_callee(g, t)
+        if c is None:
+            continue
+        if any(c is l_ for l_ in leaves):
+            e = b.expr_of_op(t["args"][1])
+            if obs_rooted(g, e):
+                own = True
+            else:
+                via |= _param_rooted(b, e)
+            continue
+        if c is g:
+            continue
+        co, cvia = mark_summary(F, c, leaves, _memo, _depth + 1)
+        if co and not c.raw.get("is_async"):
+            own = True
+        for i in cvia:
+            if i - 1 < len(t["args"]):
+                e = b.expr_of_op(t["args"][i - 1])
+                if obs_rooted(g, e):
+                    own = True
+                else:
+                    via |= _param_rooted(b, e)
+    _memo[g.path] = (own, frozenset(via))
+    return _memo[g.path]
+
+
+def _polled_bodies(F, lb, t):
+    """the local bodies a `Future::poll` / `Stream::poll_next` call inside the coroutine `lb` runs: the coroutine of a local async fn
+    (resolved by the driver), or the closure handed to `poll_fn` (matched through the closure's position in the printed type)."""
+    out = []
+    c = F.local_callee(lb, t)
+    if c is not None:
+        out.append(c)
+    full = (t.get("extra") or {}).get("full") or ""
+    for m in re.finditer(r"\{closure@([^:}]+):(\d+):(\d+)", full):
+        for ch in F.children.get(lb.key, []):
+            sp = ch.raw.get("span") or {}
+            if ch.kind == "closure" and sp.get("file") == m.group(1) and sp.get("line") == int(m.group(2)) and sp.get("col") == int(m.group(3)) and ch not in out:
+                out.append(ch)
+    return out
+
+
+def r16_6(ctx):
+    """Futures can be dropped at any suspension point (timeout, select!).  The default flavour's `Next` checks, marks and clones under
+    one guard within one poll, so dropping it loses nothing.  The async flavour must keep that: once a resumption of an async method
+    has marked an update as observed (the poll leaf answered Ready with `&mut self.observed_version`, or the field is assigned), the
+    method returns in that same resumption - no suspension point is reachable after the mark.  Otherwise a future dropped at that
+    point leaves the update marked but never delivered, and the next call waits for a *further* update."""
+    if getattr(ctx, "_r166", (None, 0))[0] == ctx.config:   # once per configuration (C16 reaches it twice: directly and through C01)
+        return ctx._r166[1]
+    F = ctx.facts
+    leaves = find_poll_leaf(F)
+    memo = {}
+    n = 0
+    for lb in F.find(crate=EY):
+        if lb.kind != "coroutine" or not lb.built:
+            continue
+        b = lb.built
+        yields = {blk for blk in range(b.n) if b.term(blk)["k"] == "yield" and not b.blocks[blk].get("cleanup")}
+        starts = []   # (block where the mark happened, [blocks to start the search from], description)
+        for loc, s_ in b.iter_stmts():
+            if s_["k"] == "assign" and s_["place"]["proj"] and last_field(s_["place"]) == "observed_version" and obs_rooted(lb, b.expr_of_place(s_["place"])):
+                starts.append((loc[0], [loc[0]], "the assignment to `observed_version`", "assign"))
+        for blk, t in b.calls():
+            if not wakers.is_poll_call(t):
+                continue
+            marking = [g for g in _polled_bodies(F, lb, t) if mark_summary(F, g, leaves, memo)[0]]
+            if not marking:
+                continue
+            # the mark is made when that poll answers Ready: follow only the edges on which its result may be Ready
+            front = []
+            seen = set()
+            work = list(b.normal_succ(blk))
+            site = (blk, len(b.blocks[blk]["stmts"]))
+            while work:
+                x = work.pop()
+                if x in seen:
+                    continue
+                seen.add(x)
+                tk = b.term(x)["k"]
+                if tk != "switch":
+                    if tk in ("goto", "false_edge", "false_unwind") and not b.blocks[x]["stmts"]:
+                        work.extend(b.normal_succ(x))
+                    else:
+                        front.append(x)
+                    continue
+                for nx in b.normal_succ(x):
+                    pend_only = False
+                    for fct in conds.bare(conds.edge_facts(b, x, nx)):
+                        if fct[0] == "variant" and fct[2] and fct[2] <= frozenset(["Pending"]) and any(c_[4] == site for c_ in find_all(fct[1], lambda y: y[0] == "call")):
+                            pend_only = True
+                    if not pend_only:
+                        front.append(nx)
+            mroot = root_fn(F, marking[0])
+            starts.append((blk, front, "the poll of `%s` (which marks the update as observed when it answers Ready)" % marking[0].path,
+                           "poll_fn" if mroot is root_fn(F, lb) else (mroot.name or "?")))
+        for mblk, front, what, tag in starts:
+            n += 1
+            reach = set()
+            for x in front:
+                reach |= b.reachable_from(x)
+                reach.add(x)
+            if mblk in [x for x in front]:
+                # statements after an assignment in its own block never suspend; the terminator might
+                pass
+            hit = sorted(reach & yields)
+            root = root_fn(F, lb)
+            ctx.verdict(not hit, "R16.6", root, "marked-then-suspended:%s:%s" % (root.name or "?", tag), b.line_at((mblk, 10 ** 6)),
+                        "after %s no suspension point is reachable: the update is handed out in the resumption that marks it" % what,
+                        "`%s`: after %s the future can still suspend (await at %s) before it returns the value. A future dropped there (timeout, select!) leaves the update marked as observed although it was never handed out: "
+                        "the next `next()` / `next_ref()` is Pending until a further update, where the default flavour (check, mark and read under one guard in one poll) delivers it" % (
+                            root.path, what, ", ".join(b.line_at((y, 10 ** 6)) for y in hit[:2])))
+    ctx._r166 = (ctx.config, n)
+    return n
+
+
+
+# ---------------------------------------------------------------------------
+# R16.7 no lock request left queued by a dropped future
+
+def _stored_gate_polls(F, g, memo, depth=0):
+    """names of the fields of the subscriber whose stored lock-acquisition future (a boxed future with a guard as output, kept in a
+    field so that it outlives the call) is polled when `g` runs - directly or through local helpers."""
+    if g.path in memo:
+        return memo[g.path]
+    memo[g.path] = set()
+    if not g.built or depth > 6:
+        return memo[g.path]
+    b = g.built
+    out = set()
+    for blk, t in b.calls():
+        if wakers.is_poll_call(t) and not t["dest"]["proj"] and re.search(wakers.GATE_TY, str(b.locals[t["dest"]["l"]]["ty"])):
+            e = b.expr_of_op(t["args"][0])
+            flds = [n[2] for n in find_all(e, lambda y: y[0] == "field" and isinstance(y[2], str) and not y[2].isdigit())]
+            rooted_self = contains(e, lambda y: (y[0] == "param" and y[1] == 1))
+            if flds and rooted_self:
+                out.add(wakers.input_name(b, t))
+            continue
+        if wakers.is_poll_call(t):
+            for pb in _polled_bodies(F, g, t):
+                if pb is not g:
+                    out |= _stored_gate_polls(F, pb, memo, depth + 1)
+            continue
+        c = F.local_callee(g, t)
+        if c is not None and c is not g and not c.raw.get("is_async"):
+            out |= _stored_gate_polls(F, c, memo, depth + 1)
+    memo[g.path] = out
+    return out
+
+
+def r16_7(ctx):
+    """A lock request that was polled once is queued in the lock's (fair) wait list; when the lock is released the request is GRANTED
+    the permit whether or not anybody polls it again (contract of tokio's RwLock / batch semaphore).  A request future that lives in
+    the subscriber therefore must not be polled from a context that can be dropped half-way - an async method's future - unless its
+    drop re-arms the stored request: otherwise `timeout(sub.next())` under a held write guard leaves a queued request behind, the
+    release hands it a read permit, and every later writer (`set().await`, `try_write`) fails although no guard exists - forever, if
+    the task that would poll the subscriber again is the one waiting in the setter."""
+    F = ctx.facts
+    memo = {}
+    n = 0
+    for lb in F.find(crate=EY):
+        if lb.kind != "coroutine" or not lb.built:
+            continue
+        b = lb.built
+        fields = set()
+        for blk, t in b.calls():
+            if wakers.is_poll_call(t):
+                for pb in _polled_bodies(F, lb, t):
+                    if pb.kind == "closure" or not pb.raw.get("is_async"):
+                        if pb.kind != "coroutine":
+                            fields |= _stored_gate_polls(F, pb, memo)
+        if not fields:
+            continue
+        root = root_fn(F, lb)
+        # a reset-on-drop guard: a local of a crate type whose Drop re-arms a stored future
+        guarded = False
+        for l_ in b.locals:
+            ty = str(l_["ty"]).split("<")[0].lstrip("&").replace("mut ", "").strip()
+            for im in F.impls:
+                if im.get("trait") == "std::ops::Drop" and im["crate"] == EY and im["self_ty"].split("<")[0] == ty:
+                    for pth in im["fns"]:
+                        d = F.fn(EY, pth)
+                        if d is not None and d.built and d.built.calls(wakers.REARM_PAT):
+                            guarded = True
+        for fld in sorted(fields):
+            n += 1
+            ctx.verdict(guarded, "R16.7", root, "queued-request-outlives-future:%s:%s" % (root.name or "?", fld), root.loc(),
+                        "a drop guard re-arms the stored request when the future is dropped",
+                        "`%s` polls the lock request stored in the subscriber (`%s`) from inside its own future: if that future is dropped while the request is queued (timeout / select! while a write guard is held or a writer is queued), the request stays queued, is granted a read permit at the next release and keeps it until the subscriber is polled again or dropped - "
+                        "`try_write()` then fails and `set().await` / `write().await` wait although no guard exists (a self-deadlock when the same task continues with a setter); the default flavour has no such state" % (root.path, fld))
+    return n
+
+
+
+def _callers_pass_observed(F, f, pidx):
+    callers = 0
+    for g in F.find(crate=EY):
+        if not g.built or g is f:
+            continue
+        gb = g.built
+        for blk, t in gb.calls():
+            if F.local_callee(g, t) is not f or pidx - 1 >= len(t["args"]):
+                continue
+            callers += 1
+            e = gb.expr_of_op(t["args"][pidx - 1])
+            if mentions_field(e, "observed_version"):
+                continue
+            # a local captured by the closure that makes the call: look at what the enclosing body captured
+            caps = [n for n in find_all(e, lambda y: y[0] == "field" and isinstance(y[2], str))]
+            par = F.fns.get(g.crate + "::" + (g.raw.get("parent") or "")) if g.kind == "closure" else None
+            good = False
+            if par is not None and par.built:
+                names = [c["name"] for c in (g.raw.get("built") or {}).get("captures", [])]
+                for loc, s_ in par.built.iter_stmts():
+                    if s_["k"] == "assign" and s_["rv"]["k"] == "agg" and s_["rv"].get("of") == "closure" and s_["rv"].get("def") == g.path:
+                        for nm, op_ in zip(names, s_["rv"]["ops"]):
+                            if any(c_[2] == nm for c_ in caps) and mentions_field(par.built.expr_of_op(op_), "observed_version"):
+                                good = True
+            if not good:
+                return False
+    return callers > 0
 
 
 def pairs(F):
@@ -263,6 +608,8 @@ def run(ctx):
     for af, sf in ps:
         k5 += r16_5(ctx, af, sf)
     ctx.floor("R16.5", k5, 15)
+    ctx.floor("R16.6", r16_6(ctx), 4)
+    ctx.floor("R16.7", r16_7(ctx), 1)
     # R16.2 / R16.3: the async poll paths
     leaves = find_poll_leaf(F)
     k = 0
@@ -276,6 +623,10 @@ def run(ctx):
                 a1 = strip(b.expr_of_op(t["args"][1]), through_calls=False)
                 cxe = b.expr_of_op(t["args"][2])
                 ok = a1[0] == "field" and a1[2] == "observed_version" and contains(cxe, lambda x: x[0] == "param" and x[1] == wakers.cx_param(b))
+                if not ok and a1[0] == "param" and a1[1] >= 2 and f.vis not in ("pub",) and contains(cxe, lambda x: x[0] == "param" and x[1] == wakers.cx_param(b)):
+                    # a private helper that is handed the version to compare with: every caller passes the subscriber's own observed
+                    # version - the field, or a copy of it made in the calling method (whose write-back R16.6 / R16.1 judge)
+                    ok = _callers_pass_observed(F, f, a1[1])
                 ctx.verdict(ok, "R16.2", f, "same-leaf", b.line_at((blk, 10 ** 6)), "poll leaf called with &mut self.observed_version and the caller's cx",
                             "the async poll path calls the leaf with `%s` / `%s`" % (fmt(a1, 3), fmt(cxe, 3)))
         r16_4(ctx, f, leaves)
